@@ -703,6 +703,10 @@ def corpus(prop):
         ('dyn_no_move_swap_remove', hdr + ['reg 8 0', 'reg 9 0', 'update', 'create 0 8 9', 'create 0 8 9', 'create 0 8 9',
                                           'set #0 8 101', 'set #1 8 102', 'set #2 8 103', 'set #0 9 201', 'set #1 9 202', 'set #2 9 203',
                                           'destroynow 0 #0', 'getconst #2 8', 'getconst #2 9', 'destroynow 0 #1']),
+        # a component of ONE byte that carries data (not a tag): relocated by swap-remove, carried through two archetype moves, cloned
+        ('one_byte_data_component', hdr + ['reg 12', 'reg 0', 'reg 2', 'update', 'create 0 12', 'create 0 12', 'create 0 12', 'create 0 12 0',
+                                          'set #0 12 11', 'set #1 12 22', 'set #2 12 33', 'set #3 12 44', 'destroynow 0 #0', 'getconst #2 12', 'assign 0 #1 0 5', 'getconst #1 12',
+                                          'assign 0 #1 2 6', 'getconst #1 12', 'remove 0 #3 0', 'getconst #3 12', 'clone #2', 'getconst #4 12', 'lock', 'assign 0 #2 0 7', 'unlock', 'getconst #2 12']),
         # first / middle / last member, populations crossing storage chunks of 2
         ('positions_chunks', hdr + ['chunkcap 2', 'reg 0', 'reg 2', 'update'] + ['create 0 0 2'] * 7 +
          ['set #%d 0 %d' % (i, 10 + i) for i in range(7)] + ['destroynow 0 #0', 'destroynow 0 #3', 'destroynow 0 #6', 'assign 0 #1 3 5', 'remove 0 #2 0', 'clone #4']),
